@@ -229,6 +229,21 @@ func (s *Store) HashLen(key string) int {
 	return len(e.fields)
 }
 
+// HashHasInt: oracle accessor — does the hash hold a field whose name is the decimal
+// form of n?  Not counted as a command.
+func (s *Store) HashHasInt(key string, n int64) bool {
+	_, e := s.find(key)
+	if e == nil || e.kind != kHash {
+		return false
+	}
+	for _, f := range e.fields {
+		if Eq(f, Int(n)) {
+			return true
+		}
+	}
+	return false
+}
+
 // Apply executes one command.  name is case-insensitive as in redis.
 func (s *Store) Apply(name string, args []Val) Reply {
 	if s.Crashed {
